@@ -7,6 +7,9 @@ From RPFT Require Import Base.Sexp Base.PyStr Base.PyStrFacts Base.Result Gen.Ta
      Comp.RefineEdge Comp.RefineGroup.
 Import ListNotations.
 
+Section WithNames.
+Context {GN : GenNames}.
+
 (* ---------------------------------------------------------------- the fragment, as a proposition *)
 Definition edge_ok (e : redge) : Prop := cond_ok (e_cond e).
 
@@ -54,7 +57,7 @@ Proof.
     - reflexivity.
     - unfold wait_sim. cbn. destruct Hwr as [-> | ->], w; try contradiction; reflexivity.
     - constructor.
-    - split; cbn; exact I.
+    - split; cbn; [exact gname_other|exact I].
     - constructor.
     - unfold sw_all_cats. cbn. rewrite Hw. cbn. constructor; [intros []|constructor]. }
   destruct timeout as [[|p]|].
@@ -67,7 +70,7 @@ Proof.
     + reflexivity.
     + unfold wait_sim. cbn. split; [reflexivity|]. exists (CFixed s_NoResponse, DNone). split; [reflexivity|]. split; cbn; auto.
     + constructor.
-    + split; cbn; exact I.
+    + split; cbn; [exact gname_other|exact I].
     + constructor.
     + unfold sw_all_cats. cbn. constructor.
       * intros [H|[]]. apply fresh_inj in H. lia.
@@ -108,13 +111,16 @@ Proof.
   - destruct Ha as [-> ->]. intros H. destruct (new_switch_node_sim phi uu _ _ _ _ _ _ H) as (r & Hb & Hac & Hds).
     rewrite Hb. split; [|reflexivity].
     eapply NS_router with (cls := SPlain) (r := r) (d := mkDec false s_input_text (wait_of (Some t)) (render_result (Some sv)) [] [] wild0 (noresp_of (Some t)));
-      cbn; eauto; try (rewrite Hac; reflexivity); try (destruct t; reflexivity); try constructor.
+      cbn; eauto; try (rewrite Hac; reflexivity); try (destruct t; reflexivity).
+    split; [constructor|split; [reflexivity|destruct t; cbn; [exact I|reflexivity]]].
   - destruct Ha as [-> ->]. intros H. destruct (new_switch_node_sim phi uu _ _ _ _ _ _ H) as (r & Hb & Hac & Hds).
     rewrite Hb. split; [|reflexivity].
-    eapply NS_router with (cls := SPlain) (r := r); cbn; eauto; try (rewrite Hac; reflexivity); try constructor.
+    eapply NS_router with (cls := SPlain) (r := r); cbn; eauto; try (rewrite Hac; reflexivity).
+    split; [constructor|split; [reflexivity|exact I]].
   - destruct Ha as [-> ->]. intros H. destruct (new_switch_node_sim phi uu _ _ _ _ _ _ H) as (r & Hb & Hac & Hds).
     rewrite Hb. split; [|reflexivity].
-    eapply NS_router with (cls := SPlain) (r := r); cbn; eauto; try (rewrite Hac; reflexivity); try constructor.
+    eapply NS_router with (cls := SPlain) (r := r); cbn; eauto; try (rewrite Hac; reflexivity).
+    split; [constructor|split; [reflexivity|exact I]].
   - contradiction.
   - (* start_new_flow *)
     destruct Ha as [-> (p & ->)]. unfold new_enter_node. cbn [node_uuid]. destruct name as [|c0 nm]; [discriminate|].
@@ -432,3 +438,4 @@ Lemma Sim_with_stack phi sr sc stk hs :
   Sim phi sr sc -> Sim phi (mkSt (s_nodes sr) (s_groups sr) (s_rowmap sr) (s_names sr) stk) (set_stack_heads sc stk hs).
 Proof. intros [H1 H2 H3 H4 H5 H6 H7 H8]. constructor; cbn; auto. Qed.
 End Step.
+End WithNames.
